@@ -115,3 +115,44 @@ pub mod tasks {
 /// Authority-lock controls: per-thread pid for lock records and scripted `pid_liveness` answers
 /// (property C18).
 pub use crate::local_authority::verif_hooks as authority;
+
+/// One function call as drained from the collector:
+/// `(output_index, call_id, item_id, name, arguments)`.
+pub type VerifCall = (u64, String, Option<String>, String, String);
+
+/// The real `OpenResponsesSsePipe` over a list of byte chunks (see `session::verif_hooks`).
+/// Returns the emitted frames, the final `*seq`, the drained function calls and the response id.
+pub async fn run_sse_pipe(
+    log_path: PathBuf,
+    chunks: Vec<Vec<u8>>,
+    seq_offset: u64,
+    compat_missing_item_ids: bool,
+    transport_error: Option<String>,
+) -> (Vec<rip_kernel::Event>, u64, Vec<VerifCall>, Option<String>) {
+    crate::session::verif_hooks::run_sse_pipe(
+        log_path,
+        chunks,
+        seq_offset,
+        compat_missing_item_ids,
+        transport_error,
+    )
+    .await
+}
+
+/// The real `ToolCallCollector` over parsed provider events.
+pub fn collect_calls(
+    events: &[rip_provider_openresponses::ParsedEvent],
+) -> (Vec<VerifCall>, Option<String>) {
+    crate::session::verif_hooks::collect_calls(events)
+}
+
+/// The real `ToolChoiceEnforcement::from_value`: (0 all / 1 none / 2 only-these, sorted names).
+pub fn tool_choice_enforcement(value: &serde_json::Value) -> (u8, Vec<String>) {
+    crate::session::verif_hooks::tool_choice_enforcement(value)
+}
+
+pub fn tool_choice_allows(value: &serde_json::Value, name: &str) -> bool {
+    crate::session::verif_hooks::tool_choice_allows(value, name)
+}
+
+pub use crate::provider_openresponses::DEFAULT_MAX_TOOL_CALLS;
